@@ -127,6 +127,18 @@ REGISTRY["C05"] = dict(
     explanation="Clauses C05-a..d of DESIGN.md §3 on MIR/HIR facts of the current tree. NOT decided: well-formedness of the emitted text as CSS, fixed-point behaviour.",
     assumptions=TRUSTED + ["io::Write for Vec<u8> and core::fmt write whole UTF-8 strs"],
 )
+REGISTRY["C02"] = dict(
+    module="c02",
+    level="other",
+    technique="static analysis: source->sink flow from unordered/interning-ordered traversals to order-sensitive consumers; statics/ambient-input inventory (who-may-call); struct-literal freshness of per-compilation state",
+    claim=(
+        "Every source of non-determinism is enumerated and confined: (a) hash-collection iteration and (b) ordered traversal of BTree collections keyed by Identifier (interning order) must end in an order-insensitive consumer; "
+        "(c) every static is an immutable table, an identity counter whose value is only stored as an id, or the thread-local interner; (d) randomness/time/env/address reads occur only in random(), unique-id() and the pointer hash; "
+        "(e) Visitor/CodeMap/Serializer are built fresh per entry-point call from arguments or empty values. NOT decided: that these are the only channels; byte-identical output under concurrency as such."
+    ),
+    explanation="Clauses C02-a..e of DESIGN.md §3 on MIR/HIR facts of the current tree; known findings list the traversals whose order reaches output. NOT decided: allocator-address channels (Arc::ptr_eq), unique-id() distinctness, concurrency as executed.",
+    assumptions=TRUSTED + ["HashMap/HashSet iteration order is unspecified; BTreeMap order follows the key's Ord, which for Identifier is the interner key"],
+)
 
 UNBUILT = "check not built yet in this session (design in DESIGN.md §3); not claimed until its rules run clean on the pinned tree"
 NOT_APPLICABLE = {
